@@ -1,5 +1,7 @@
 #!/usr/bin/env python3
-# Authoring helper: writes /repo/internal/cbor/zz_contracts_verif.go and /repo/zz_contracts_cbor_verif.go
+import sys
+if "--force" not in sys.argv: sys.exit("HISTORICAL GUARD: rerunning this generator would overwrite hand-written decoder contracts in /repo/internal/cbor/zz_contracts_verif.go; pass --force only if you know what you are doing")
+# Authoring helper (HISTORICAL: do not rerun, the cbor contract file has since been extended by hand with the decoder contracts): wrote /repo/internal/cbor/zz_contracts_verif.go and /repo/zz_contracts_cbor_verif.go
 def be(n):  # big-endian argument of n bytes starting at p+1
     parts=[]
     for k in range(n):
